@@ -49,8 +49,8 @@ MANIFEST = dict(
     note=("Trusted: Lean kernel, Mathlib, axioms propext/Classical.choice/Quot.sound; the hand-written model "
           "(lean/templates/Precession.lean) and its bit-exact correspondence run; the idealisation binary64 -> real is "
           "measured, not proved. The findings of the first version of this check (asin declination near the poles, "
-          "orbital inclinations below 1 and above 90 degrees) are fixed in /repo by the corresponding fix: commits of /repo and "
-          "proposed-6.patch; one corner stays listed (known_findings.json (property C06)): i0 = 0 together with a zero interval."),
+          "orbital inclinations below 1 and above 90 degrees) are fixed in /repo by fix: commits; one corner "
+          " stays listed (known_findings.json (property C06)): i0 = 0 together with a zero interval."),
     technique="Lean 4 proof over the reals (rotation matrices, Complex.arg, ring identities of the precession polynomials) + bit-exact model/implementation correspondence + predicate check",
     ref='6 C06')
 
